@@ -753,6 +753,12 @@ def curated(seed):
         ufl.inv(t)[0, 0], ufl.cofac(t)[1, 0], ufl.dev(t)[0, 0], ufl.skew(t)[0, 1], ufl.perp(v)[0], ufl.elem_mult(v, w)[0], ufl.cross(ufl.as_vector([f, g, h]), ufl.as_vector([g, h, f]))[0],
         ufl.as_vector([f, g])[i] * v[i], ufl.as_vector([g, f])[i] * v[i], ufl.as_tensor(t[i, j], (j, i))[0, 1],
     ]
+    # operators with a varying number of operands: one operand list a strict prefix of the other
+    l2, l3, l4 = ufl.as_vector([f, g]), ufl.as_vector([f, g, h]), ufl.as_vector([f, g, h, f])
+    m2, m3 = ufl.as_tensor([v, w]), ufl.as_tensor([v, w, v2])
+    ops += [ufl.inner(l2, l2), ufl.inner(l3, l3), ufl.inner(l4, l4), ufl.sqrt(ufl.dot(l2, l2)), ufl.sqrt(ufl.dot(l3, l3)), ufl.exp(l2[i] * l2[i]),
+            ufl.exp(l3[i] * l3[i]), ufl.inner(m2, m2), ufl.inner(m3, m3), ufl.tr(ufl.outer(l2, l2)), ufl.tr(ufl.outer(l3, l3)),
+            ufl.tr(ufl.outer(l4, l4))]
     for q, e in enumerate(ops):
         add(f"op{q}", e)
     # ---- base form operators (data outside ufl_operands)
